@@ -1,5 +1,6 @@
 """C16 - trash-put's exit status tells the truth and arguments are handled independently."""
 import copy
+import os
 import re
 
 import engine
@@ -54,6 +55,15 @@ def gen(rng, n):
             if firsts:
                 a0 = rng.choice(firsts)
                 args.append({'arg': a0['arg'], 'kind': 'again', 'entry': None, 'expect': 'missing'})
+        if rng.random() < 0.15 and len(args) >= 2:
+            # the file system refuses to create the .trashinfo of ONE of the arguments (no space left, read-only, ...), in every trash
+            # directory: that argument fails and is named, the others are handled as if it had not been there
+            vict = [a for a in args if a['expect'] == 'trash' and a['entry']]
+            if vict:
+                a0 = rng.choice(vict)
+                nm = os.path.basename(os.path.normpath(a0['entry']))
+                if nm and len(nm) < 200:
+                    s['steps'][0]['plan'] = {'faults': {'open': {'errno': rng.choice([28, 30, 13, 122]), 'path': '/info/' + nm}}}
         av = s['steps'][0]['argv']
         s['steps'][0]['argv'] = av[:av.index('--') + 1] + [a['arg'] for a in args]
         m['blocked'] = blocked
